@@ -55,6 +55,7 @@ def _lambdas_in(node) -> List[ast.Lambda]:
 def find(relpath: str, qualname: str):
     """returns (node, source_segment, sha1[:16], lineno)"""
     src, mod = load_module(relpath)
+    qualname = qualname.split("@")[0]          # "@tag" distinguishes several contracts (type variants) of one function
     parts = qualname.split(".")
     node = mod
     i = 0
